@@ -18,10 +18,7 @@ namespace detail
 			if (Source >= genType(0))
 				return Source - std::fmod(Source, Multiple);
 			else
-			{
-				genType Tmp = Source + genType(1);
-				return Tmp - std::fmod(Tmp, Multiple) - Multiple;
-			}
+				return Source - std::fmod(Multiple + std::fmod(Source, Multiple), Multiple);
 		}
 	};
 
